@@ -1,6 +1,7 @@
 package engine
 
 import (
+	"sort"
 	"fmt"
 	"strings"
 	"time"
@@ -196,6 +197,66 @@ func (s *Session) FillAndOverflow(r *RNG) {
 	s.Commit()
 	if fs := s.F.VerifSnapshot(); fs.MetaEnd > fs.DataEnd && fs.MetaEnd > fs.MaxPages {
 		s.mark("overflow-area-beyond-limit")
+	}
+}
+
+// OverflowGap drives a bounded file into the state "overflow area beyond the limit, data end
+// below the limit": one overflow transaction fills the file, overwrites (and flushes) old pages
+// until overwrite pages come from the overflow area, then frees the pages at the end of the data
+// area again. Closing and reopening such a file must change nothing (C10): followed by a reopen
+// compare and an allocation.
+func (s *Session) OverflowGap(r *RNG) {
+	if s.F == nil || s.Tx != nil || s.Cfg.MaxPages == 0 {
+		return
+	}
+	fs := s.F.VerifSnapshot()
+	avail := int(fs.DataAvail)
+	if fs.DataEnd < fs.MaxPages {
+		avail += int(fs.MaxPages - fs.DataEnd)
+	}
+	live := s.LiveIDs()
+	if avail < 4 || avail > 400 || len(live) < 4 {
+		return
+	}
+	if s.Begin(TxOpts{Overflow: true}) != "ok" {
+		return
+	}
+	ids, res := s.Alloc(avail)
+	if res != "ok" {
+		s.Rollback("rollback")
+		return
+	}
+	for _, id := range ids[:len(ids)-3] {
+		s.Write(id, "full")
+	}
+	// overwrites of committed pages, flushed at once: each takes an overwrite page from the meta area
+	n := 4 + r.Intn(8)
+	for k := 0; k < n && k < len(live); k++ {
+		if s.Write(live[k], "full") == "ok" {
+			s.FlushPage(live[k])
+		}
+	}
+	// give back the end of the data area
+	sort.Slice(ids, func(i, j int) bool { return ids[i] < ids[j] })
+	for i := len(ids) - 1; i >= len(ids)-3; i-- {
+		s.Free(ids[i])
+	}
+	if s.Commit() != "ok" {
+		return
+	}
+	if fs := s.F.VerifSnapshot(); fs.MetaEnd > fs.MaxPages && fs.DataEnd < fs.MaxPages {
+		s.mark("overflow-gap-below-limit")
+	}
+	s.AccountCheck()
+	s.ReopenCheck()
+	if s.F != nil && s.Begin(TxOpts{}) == "ok" {
+		if ids, res := s.Alloc(1 + r.Intn(3)); res == "ok" {
+			for _, id := range ids {
+				s.Write(id, "full")
+			}
+		}
+		s.Commit()
+		s.Quiesce()
 	}
 }
 
